@@ -1,2 +1,888 @@
-//! w_collection: world helpers (filled in by the properties that need it).
+//! w_collection: the collection world shared by C09 and C10.
+//!
+//! A collection of the chosen variant is instantiated by `puppet`, a tiny harness-only
+//! contract that forwards any CosmosMsg it is given (sg721 instantiation demands a
+//! *contract* sender) and accepts `ReceiveNft`.  Calls come from arbitrary accounts; a
+//! call "from the puppet" is wrapped in `Forward`.  After every call the queries the
+//! properties name are read back (`Obs`), and the whole history is printed as a Coq
+//! `history` term for `Collection.history_check`.
 #![allow(dead_code, unused_imports)]
+use crate::chain::{self, App};
+use crate::util::*;
+use cosmwasm_std::{
+    coins, to_json_binary, Addr, Binary, Coin, CosmosMsg, Decimal, Deps, DepsMut, Empty, Env, MessageInfo, Response,
+    StdResult, Uint128, WasmMsg,
+};
+use cw_multi_test::{Contract, ContractWrapper, Executor};
+use serde::{Deserialize, Serialize};
+use serde_json::{json, Value};
+use std::collections::BTreeMap;
+
+// ------------------------------------------------------------------ puppet contract
+#[derive(Serialize, Deserialize, Clone, Debug, PartialEq)]
+#[serde(rename_all = "snake_case")]
+pub enum PuppetExec {
+    Forward { msgs: Vec<CosmosMsg> },
+    ReceiveNft(cw721::Cw721ReceiveMsg),
+}
+fn puppet_instantiate(_d: DepsMut, _e: Env, _i: MessageInfo, _m: Empty) -> StdResult<Response> {
+    Ok(Response::new())
+}
+fn puppet_execute(_d: DepsMut, _e: Env, _i: MessageInfo, m: PuppetExec) -> StdResult<Response> {
+    match m {
+        PuppetExec::Forward { msgs } => Ok(Response::new().add_messages(msgs)),
+        PuppetExec::ReceiveNft(_) => Ok(Response::new()),
+    }
+}
+fn puppet_query(_d: Deps, _e: Env, _m: Empty) -> StdResult<Binary> {
+    Ok(Binary::default())
+}
+pub fn puppet() -> Box<dyn Contract<Empty>> {
+    Box::new(ContractWrapper::new(puppet_execute, puppet_instantiate, puppet_query))
+}
+
+// ------------------------------------------------------------------ vocabulary
+#[derive(Clone, Copy, Debug, Serialize, Deserialize, PartialEq, Eq, PartialOrd, Ord, Hash)]
+pub enum Variant {
+    Base,
+    Updatable,
+    /// instantiated as sg721-base, then migrated to sg721-updatable (metadata updates disabled
+    /// until the creator pays EnableUpdatable)
+    UpdatableMigrated,
+    Onchain,
+    Nt,
+}
+impl Variant {
+    pub const ALL: [Variant; 5] =
+        [Variant::Base, Variant::Updatable, Variant::UpdatableMigrated, Variant::Onchain, Variant::Nt];
+    pub fn name(&self) -> &'static str {
+        match self {
+            Variant::Base => "sg721-base",
+            Variant::Updatable => "sg721-updatable",
+            Variant::UpdatableMigrated => "sg721-updatable(migrated)",
+            Variant::Onchain => "sg721-metadata-onchain",
+            Variant::Nt => "sg721-nt",
+        }
+    }
+    pub fn coq(&self) -> &'static str {
+        match self {
+            Variant::Base => "Base",
+            Variant::Updatable | Variant::UpdatableMigrated => "Updatable",
+            Variant::Onchain => "Onchain",
+            Variant::Nt => "NT",
+        }
+    }
+    pub fn updatable(&self) -> bool {
+        matches!(self, Variant::Updatable | Variant::UpdatableMigrated)
+    }
+}
+
+pub const PUPPET: &str = "contract0";
+pub const DRIVER: &str = "driver";
+pub const ADMIN: &str = "admin";
+/// accounts the generators draw senders / recipients / operators from
+pub const USERS: [&str; 7] = ["creator", "creator2", "minter2", "alice", "bob", "carol", "royalty"];
+pub const DAY_NS: u64 = 86_400_000_000_000;
+pub const ONE: u128 = 1_000_000_000_000_000_000;
+pub const PCT: u128 = 10_000_000_000_000_000;
+pub const ENABLE_FEE: u128 = 1_500_000_000;
+
+pub const VALID_URLS: [&str; 4] =
+    ["https://example.com/image.png", "ipfs://bafybeigdyrzt5sfp7udm7hu76uh7y26nf3efuylqabf3oclgtqy55fbzdi/1.png", "http://a.b", "https://stargaze.zone/launchpad?x=1#y"];
+pub const INVALID_URLS: [&str; 4] = ["not a url", "", "//missing-scheme.example", "http://"];
+
+#[derive(Clone, Debug, Serialize, Deserialize, PartialEq, Eq, PartialOrd, Ord, Hash)]
+pub enum Exp {
+    Never,
+    At(u64),
+}
+#[derive(Clone, Debug, Serialize, Deserialize, PartialEq, Eq, PartialOrd, Ord, Hash)]
+pub struct Roy {
+    pub addr: String,
+    pub share: u128,
+}
+#[derive(Clone, Debug, Serialize, Deserialize, PartialEq, Eq, PartialOrd, Ord, Hash)]
+pub struct InfoSpec {
+    pub creator: String,
+    pub description: String,
+    pub image: String,
+    pub external_link: Option<String>,
+    pub explicit_content: Option<bool>,
+    pub start_trading_time: Option<u64>,
+    pub royalty: Option<Roy>,
+}
+#[derive(Clone, Debug, Default, Serialize, Deserialize, PartialEq, Eq, PartialOrd, Ord, Hash)]
+pub struct UpdSpec {
+    pub description: Option<String>,
+    pub image: Option<String>,
+    pub external_link: Option<String>,
+    pub explicit_content: Option<bool>,
+    pub royalty: Option<Roy>,
+    pub creator: Option<String>,
+}
+#[derive(Clone, Debug, Serialize, Deserialize, PartialEq, Eq, PartialOrd, Ord, Hash)]
+pub enum Op {
+    Mint { id: u64, owner: String, uri: Option<String> },
+    Transfer { to: String, id: u64 },
+    Send { to: String, id: u64 },
+    Approve { spender: String, id: u64, exp: Option<Exp> },
+    Revoke { spender: String, id: u64 },
+    ApproveAll { operator: String, exp: Option<Exp> },
+    RevokeAll { operator: String },
+    Burn { id: u64 },
+    UpdateInfo(UpdSpec),
+    StartTrading(Option<u64>),
+    FreezeInfo,
+    OwnTransfer { new_owner: String, exp: Option<Exp> },
+    OwnAccept,
+    OwnRenounce,
+    UpdateTokenMd { id: u64, uri: Option<String> },
+    FreezeTokenMd,
+    EnableUpdatable,
+}
+impl Op {
+    pub fn kind(&self) -> &'static str {
+        match self {
+            Op::Mint { .. } => "mint",
+            Op::Transfer { .. } => "transfer_nft",
+            Op::Send { .. } => "send_nft",
+            Op::Approve { .. } => "approve",
+            Op::Revoke { .. } => "revoke",
+            Op::ApproveAll { .. } => "approve_all",
+            Op::RevokeAll { .. } => "revoke_all",
+            Op::Burn { .. } => "burn",
+            Op::UpdateInfo(u) => {
+                if u.royalty.is_some() {
+                    "update_collection_info+royalty"
+                } else {
+                    "update_collection_info"
+                }
+            }
+            Op::StartTrading(_) => "update_start_trading_time",
+            Op::FreezeInfo => "freeze_collection_info",
+            Op::OwnTransfer { .. } => "transfer_ownership",
+            Op::OwnAccept => "accept_ownership",
+            Op::OwnRenounce => "renounce_ownership",
+            Op::UpdateTokenMd { .. } => "update_token_metadata",
+            Op::FreezeTokenMd => "freeze_token_metadata",
+            Op::EnableUpdatable => "enable_updatable",
+        }
+    }
+}
+#[derive(Clone, Debug, Serialize, Deserialize, PartialEq, Eq, PartialOrd, Ord, Hash)]
+pub struct Step {
+    /// absolute block time (ns) at which the call is made
+    pub at: u64,
+    pub sender: String,
+    pub op: Op,
+    pub funds: Vec<(String, u128)>,
+}
+#[derive(Clone, Debug, Serialize, Deserialize, PartialEq, Eq, PartialOrd, Ord, Hash)]
+pub struct Setup {
+    pub variant: Variant,
+    pub time0: u64,
+    /// false: a plain account tries to instantiate (must be rejected)
+    pub by_contract: bool,
+    pub funds0: u128,
+    pub minter: String,
+    pub info: InfoSpec,
+}
+#[derive(Clone, Debug, Serialize, Deserialize, PartialEq, Eq, PartialOrd, Ord, Hash)]
+pub struct Hist {
+    pub setup: Setup,
+    pub steps: Vec<Step>,
+}
+
+pub fn token_name(id: u64) -> String {
+    format!("t{:03}", id)
+}
+fn token_num(s: &str) -> u64 {
+    s.strip_prefix('t').and_then(|x| x.parse::<u64>().ok()).expect("token ids are t<NNN>")
+}
+
+// ------------------------------------------------------------------ observations
+#[derive(Clone, Debug, PartialEq, Eq, Hash, Serialize)]
+pub struct InfoObs {
+    pub creator: String,
+    pub description: String,
+    pub image: String,
+    pub external_link: Option<String>,
+    pub explicit_content: Option<bool>,
+    pub start_trading_time: Option<u64>,
+    pub royalty: Option<Roy>,
+}
+impl InfoObs {
+    /// the creator-editable fields (start_trading_time is edited by the minter)
+    pub fn creator_fields(&self) -> (String, String, String, Option<String>, Option<bool>, Option<Roy>) {
+        (
+            self.creator.clone(),
+            self.description.clone(),
+            self.image.clone(),
+            self.external_link.clone(),
+            self.explicit_content,
+            self.royalty.clone(),
+        )
+    }
+}
+#[derive(Clone, Debug, PartialEq, Eq, Hash, Serialize)]
+pub struct TokObs {
+    pub id: String,
+    pub owner: String,
+    pub approvals: Vec<(String, Exp)>,
+    pub uri: Option<String>,
+}
+#[derive(Clone, Debug, PartialEq, Eq, Hash, Serialize)]
+pub struct Obs {
+    pub info: InfoObs,
+    pub num_tokens: u64,
+    pub tokens: Vec<TokObs>,
+    pub minter: Option<String>,
+    pub pending: Option<String>,
+    pub pending_expiry: Option<Exp>,
+    pub operators: Vec<(String, String, Exp)>,
+    pub md_frozen: bool,
+    pub md_enabled: bool,
+    /// Minter{} and Ownership{}.owner disagree (never expected; monitored)
+    pub minter_mismatch: bool,
+}
+impl Obs {
+    pub fn token(&self, id: &str) -> Option<&TokObs> {
+        self.tokens.iter().find(|t| t.id == id)
+    }
+}
+
+#[derive(Clone, Debug)]
+pub struct StepRec {
+    pub step: Step,
+    pub ok: bool,
+    pub err: String,
+    pub burned: u128,
+    pub pooled: u128,
+    pub before: Obs,
+    pub after: Obs,
+}
+pub struct Trace {
+    pub hist: Hist,
+    pub init_err: Option<String>,
+    pub init_obs: Option<Obs>,
+    pub recs: Vec<StepRec>,
+    pub coq: String,
+}
+
+fn exp_of(e: &cw_utils::Expiration) -> Exp {
+    match e {
+        cw_utils::Expiration::Never {} => Exp::Never,
+        cw_utils::Expiration::AtTime(t) => Exp::At(t.nanos()),
+        cw_utils::Expiration::AtHeight(_) => panic!("AtHeight expirations are outside the stated bound"),
+    }
+}
+fn exp_json(e: &Option<Exp>) -> Value {
+    match e {
+        None => Value::Null,
+        Some(Exp::Never) => json!({"never": {}}),
+        Some(Exp::At(t)) => json!({"at_time": t.to_string()}),
+    }
+}
+pub fn share_str(atomics: u128) -> String {
+    Decimal::new(Uint128::new(atomics)).to_string()
+}
+fn roy_json(r: &Option<Roy>) -> Value {
+    match r {
+        None => Value::Null,
+        Some(r) => json!({"payment_address": r.addr, "share": share_str(r.share)}),
+    }
+}
+
+// ------------------------------------------------------------------ the world
+pub struct World {
+    pub app: App,
+    pub variant: Variant,
+    pub coll: Addr,
+    pub addrs: Ids,
+    pub texts: Ids,
+    pub uris: Ids,
+}
+
+fn fixed_addrs() -> Ids {
+    let mut a = addr_ids();
+    for s in [PUPPET, "contract1"] {
+        a.id(s);
+    }
+    for s in USERS {
+        a.id(s);
+    }
+    a.id(DRIVER);
+    a.id(ADMIN);
+    a
+}
+
+impl World {
+    /// Build the chain, the puppet, and try to instantiate the collection.
+    pub fn boot(setup: &Setup) -> Result<World, (String, Ids, Ids)> {
+        let mut app = chain::new_app();
+        chain::set_time(&mut app, setup.time0);
+        let puppet_code = app.store_code(puppet());
+        let base_code = app.store_code(chain::sg721_base());
+        let upd_code = app.store_code(chain::sg721_updatable());
+        let onchain_code = app.store_code(chain::sg721_metadata_onchain());
+        let nt_code = app.store_code(chain::sg721_nt());
+        let pup = app
+            .instantiate_contract(puppet_code, Addr::unchecked(DRIVER), &Empty {}, &[], "puppet", None)
+            .expect("puppet");
+        assert_eq!(pup.as_str(), PUPPET);
+        for u in USERS.iter().chain([PUPPET, DRIVER].iter()) {
+            chain::mint_coins(&mut app, u, 10_000_000_000_000, NATIVE);
+            chain::mint_coins(&mut app, u, 10_000_000_000_000, "uother");
+        }
+        let code = match setup.variant {
+            Variant::Base | Variant::UpdatableMigrated => base_code,
+            Variant::Updatable => upd_code,
+            Variant::Onchain => onchain_code,
+            Variant::Nt => nt_code,
+        };
+        let i = &setup.info;
+        let msg = json!({
+            "name": "Collection", "symbol": "COL", "minter": setup.minter,
+            "collection_info": {
+                "creator": i.creator, "description": i.description, "image": i.image,
+                "external_link": i.external_link, "explicit_content": i.explicit_content,
+                "start_trading_time": i.start_trading_time.map(|t| t.to_string()),
+                "royalty_info": roy_json(&i.royalty),
+            }
+        });
+        let funds: Vec<Coin> = if setup.funds0 > 0 { coins(setup.funds0, NATIVE) } else { vec![] };
+        let mut addrs = fixed_addrs();
+        let mut texts = Ids::with_fixed(&[], 1);
+        let uris = Ids::with_fixed(&[], 1);
+        let res = if setup.by_contract {
+            let inst = CosmosMsg::Wasm(WasmMsg::Instantiate {
+                admin: Some(ADMIN.to_string()),
+                code_id: code,
+                msg: to_json_binary(&msg).unwrap(),
+                funds,
+                label: "collection".into(),
+            });
+            chain::exec(&mut app, DRIVER, &pup, &PuppetExec::Forward { msgs: vec![inst] }, &[]).map(|r| {
+                r.events
+                    .iter()
+                    .filter(|e| e.ty == "instantiate")
+                    .flat_map(|e| e.attributes.iter())
+                    .find(|a| a.key == "_contract_address")
+                    .map(|a| Addr::unchecked(a.value.clone()))
+                    .expect("instantiate event")
+            })
+        } else {
+            match catch(|| {
+                app.instantiate_contract(code, Addr::unchecked("alice"), &msg, &funds, "collection", Some(ADMIN.to_string()))
+            }) {
+                Ok(Ok(a)) => Ok(a),
+                Ok(Err(e)) => Err(format!("{:#}", e)),
+                Err(p) => Err(p),
+            }
+        };
+        // register the strings of the setup in a fixed order so that ids are stable
+        addrs.id(&i.creator);
+        addrs.id(&setup.minter);
+        if let Some(r) = &i.royalty {
+            addrs.id(&r.addr);
+        }
+        texts.id(&i.description);
+        texts.id(&i.image);
+        if let Some(l) = &i.external_link {
+            texts.id(l);
+        }
+        let coll = match res {
+            Ok(a) => a,
+            Err(e) => return Err((e, addrs, texts)),
+        };
+        if setup.variant == Variant::UpdatableMigrated {
+            app.migrate_contract(Addr::unchecked(ADMIN), coll.clone(), &Empty {}, upd_code)
+                .expect("sg721-base -> sg721-updatable migration of the same workspace version");
+        }
+        addrs.id(coll.as_str());
+        Ok(World { app, variant: setup.variant, coll, addrs, texts, uris })
+    }
+
+    fn q<T: serde::de::DeserializeOwned>(&self, msg: &Value) -> T {
+        self.app.wrap().query_wasm_smart(self.coll.clone(), msg).unwrap_or_else(|e| panic!("query {} failed: {}", msg, e))
+    }
+
+    pub fn observe(&self) -> Obs {
+        let ci: sg721_base::msg::CollectionInfoResponse = self.q(&json!({"collection_info": {}}));
+        let info = InfoObs {
+            creator: ci.creator,
+            description: ci.description,
+            image: ci.image,
+            external_link: ci.external_link,
+            explicit_content: ci.explicit_content,
+            start_trading_time: ci.start_trading_time.map(|t| t.nanos()),
+            royalty: ci.royalty_info.map(|r| Roy { addr: r.payment_address, share: r.share.atomics().u128() }),
+        };
+        let n: cw721::NumTokensResponse = self.q(&json!({"num_tokens": {}}));
+        let all: cw721::TokensResponse = self.q(&json!({"all_tokens": {"limit": 100}}));
+        let mut tokens = vec![];
+        for id in &all.tokens {
+            let o: cw721::OwnerOfResponse = self.q(&json!({"owner_of": {"token_id": id, "include_expired": true}}));
+            let ni: Value = self.q(&json!({"nft_info": {"token_id": id}}));
+            let uri = ni.get("token_uri").and_then(|v| v.as_str()).map(|s| s.to_string());
+            tokens.push(TokObs {
+                id: id.clone(),
+                owner: o.owner,
+                approvals: o.approvals.iter().map(|a| (a.spender.clone(), exp_of(&a.expires))).collect(),
+                uri,
+            });
+        }
+        let m: cw721_base::msg::MinterResponse = self.q(&json!({"minter": {}}));
+        let (pending, pending_expiry, mismatch) = if self.variant.updatable() {
+            (None, None, false)
+        } else {
+            let o: cw_ownable::Ownership<String> = self.q(&json!({"ownership": {}}));
+            (o.pending_owner, o.pending_expiry.as_ref().map(exp_of), o.owner != m.minter)
+        };
+        let mut operators = vec![];
+        let mut owners: Vec<String> = USERS.iter().map(|s| s.to_string()).collect();
+        owners.push(PUPPET.to_string());
+        owners.push(self.coll.to_string());
+        for ow in owners {
+            let r: cw721::OperatorsResponse =
+                self.q(&json!({"all_operators": {"owner": ow, "include_expired": true, "limit": 100}}));
+            for a in r.operators {
+                operators.push((ow.clone(), a.spender, exp_of(&a.expires)));
+            }
+        }
+        let (md_frozen, md_enabled) = if self.variant.updatable() {
+            let f: sg721_updatable::msg::FrozenTokenMetadataResponse = self.q(&json!({"freeze_token_metadata": {}}));
+            let e: sg721_updatable::msg::EnableUpdatableResponse = self.q(&json!({"enable_updatable": {}}));
+            (f.frozen, e.enabled)
+        } else {
+            (false, false)
+        };
+        Obs {
+            info,
+            num_tokens: n.count,
+            tokens,
+            minter: m.minter,
+            pending,
+            pending_expiry,
+            operators,
+            md_frozen,
+            md_enabled,
+            minter_mismatch: mismatch,
+        }
+    }
+
+    fn op_json(&self, op: &Op) -> Value {
+        let nt = self.variant == Variant::Nt;
+        match op {
+            Op::Mint { id, owner, uri } => {
+                let ext = if self.variant == Variant::Onchain { json!({"name": "item"}) } else { Value::Null };
+                json!({"mint": {"token_id": token_name(*id), "owner": owner, "token_uri": uri, "extension": ext}})
+            }
+            Op::Transfer { to, id } => json!({"transfer_nft": {"recipient": to, "token_id": token_name(*id)}}),
+            Op::Send { to, id } => {
+                json!({"send_nft": {"contract": to, "token_id": token_name(*id), "msg": Binary::from(b"{}".to_vec())}})
+            }
+            Op::Approve { spender, id, exp } => {
+                json!({"approve": {"spender": spender, "token_id": token_name(*id), "expires": exp_json(exp)}})
+            }
+            Op::Revoke { spender, id } => json!({"revoke": {"spender": spender, "token_id": token_name(*id)}}),
+            Op::ApproveAll { operator, exp } => json!({"approve_all": {"operator": operator, "expires": exp_json(exp)}}),
+            Op::RevokeAll { operator } => json!({"revoke_all": {"operator": operator}}),
+            Op::Burn { id } => json!({"burn": {"token_id": token_name(*id)}}),
+            Op::UpdateInfo(u) => {
+                let body = json!({
+                    "description": u.description, "image": u.image, "external_link": u.external_link,
+                    "explicit_content": u.explicit_content, "royalty_info": roy_json(&u.royalty), "creator": u.creator,
+                });
+                if nt {
+                    json!({"update_collection_info": {"new_collection_info": body}})
+                } else {
+                    json!({"update_collection_info": {"collection_info": body}})
+                }
+            }
+            Op::StartTrading(t) => json!({"update_start_trading_time": t.map(|x| x.to_string())}),
+            // sg721::ExecuteMsg::FreezeCollectionInfo is a unit variant; sg721-nt and
+            // sg721-updatable declare `FreezeCollectionInfo {}`
+            Op::FreezeInfo => {
+                if nt || self.variant == Variant::Updatable || self.variant == Variant::UpdatableMigrated {
+                    json!({"freeze_collection_info": {}})
+                } else {
+                    json!("freeze_collection_info")
+                }
+            }
+            Op::OwnTransfer { new_owner, exp } => {
+                json!({"update_ownership": {"transfer_ownership": {"new_owner": new_owner, "expiry": exp_json(exp)}}})
+            }
+            Op::OwnAccept => json!({"update_ownership": "accept_ownership"}),
+            Op::OwnRenounce => json!({"update_ownership": "renounce_ownership"}),
+            Op::UpdateTokenMd { id, uri } => {
+                json!({"update_token_metadata": {"token_id": token_name(*id), "token_uri": uri}})
+            }
+            Op::FreezeTokenMd => json!({"freeze_token_metadata": {}}),
+            Op::EnableUpdatable => json!({"enable_updatable": {}}),
+        }
+    }
+
+    /// Execute one call at its block time; returns (ok, error text, burned, pooled).
+    pub fn exec(&mut self, st: &Step) -> (bool, String, u128, u128) {
+        chain::set_time(&mut self.app, st.at);
+        let msg = self.op_json(&st.op);
+        let funds: Vec<Coin> = st.funds.iter().map(|(d, a)| Coin::new(*a, d.clone())).collect();
+        // burned = what left the tracked accounts altogether (cw-multi-test 1.2 has no supply query)
+        let tracked = [st.sender.clone(), self.coll.to_string(), chain::FAIRBURN_POOL.to_string(), PUPPET.to_string(), DRIVER.to_string()];
+        let total = |app: &App| -> u128 {
+            let mut seen: Vec<&String> = vec![];
+            let mut t = 0u128;
+            for a in tracked.iter() {
+                if !seen.contains(&a) {
+                    seen.push(a);
+                    t += chain::balance(app, a, NATIVE);
+                }
+            }
+            t
+        };
+        let supply0 = total(&self.app);
+        let pool0 = chain::balance(&self.app, chain::FAIRBURN_POOL, NATIVE);
+        let coll = self.coll.clone();
+        let r = if st.sender == PUPPET {
+            let fwd = CosmosMsg::Wasm(WasmMsg::Execute {
+                contract_addr: coll.to_string(),
+                msg: to_json_binary(&msg).unwrap(),
+                funds,
+            });
+            chain::exec(&mut self.app, DRIVER, &Addr::unchecked(PUPPET), &PuppetExec::Forward { msgs: vec![fwd] }, &[])
+        } else {
+            chain::exec(&mut self.app, &st.sender, &coll, &msg, &funds)
+        };
+        match r {
+            Ok(_) => {
+                let burned = supply0 - total(&self.app);
+                let pooled = chain::balance(&self.app, chain::FAIRBURN_POOL, NATIVE) - pool0;
+                (true, String::new(), burned, pooled)
+            }
+            Err(e) => (false, e, 0, 0),
+        }
+    }
+
+    // ---------------- Coq printing
+    fn coq_txt(&mut self, s: &str) -> String {
+        format!("(mkTxt {} {} {})", self.texts.id(s), s.len(), coq_bool(VALID_URLS.contains(&s)))
+    }
+    fn coq_opt_txt(&mut self, s: &Option<String>) -> String {
+        match s {
+            Some(x) => format!("(Some {})", self.coq_txt(x)),
+            None => "None".into(),
+        }
+    }
+    fn coq_roy(&mut self, r: &Option<Roy>) -> String {
+        match r {
+            Some(r) => format!("(Some (mkRoy {} {}))", self.addrs.id(&r.addr), r.share),
+            None => "None".into(),
+        }
+    }
+    fn coq_uri(&mut self, u: &Option<String>) -> String {
+        match u {
+            Some(x) => format!("(Some {})", self.uris.id(x)),
+            None => "None".into(),
+        }
+    }
+    fn coq_opt_addr(&mut self, a: &Option<String>) -> String {
+        match a {
+            Some(x) => format!("(Some {})", self.addrs.id(x)),
+            None => "None".into(),
+        }
+    }
+    pub fn coq_info(&mut self, i: &InfoObs) -> String {
+        let c = self.addrs.id(&i.creator);
+        format!(
+            "(mkInfo {} {} {} {} {} {} {})",
+            c,
+            self.coq_txt(&i.description),
+            self.coq_txt(&i.image),
+            self.coq_opt_txt(&i.external_link),
+            coq_opt_bool(i.explicit_content),
+            coq_opt_n(i.start_trading_time),
+            self.coq_roy(&i.royalty)
+        )
+    }
+    pub fn coq_obs(&mut self, o: &Obs) -> String {
+        let info = self.coq_info(&o.info);
+        let toks: Vec<String> = o
+            .tokens
+            .iter()
+            .map(|t| {
+                let ap: Vec<String> =
+                    t.approvals.iter().map(|(s, e)| format!("({}, {})", self.addrs.id(s), coq_exp(e))).collect();
+                format!("({}, mkTok {} {} {})", token_num(&t.id), self.addrs.id(&t.owner), coq_list(&ap), self.coq_uri(&t.uri))
+            })
+            .collect();
+        let mut ops: Vec<(u64, u64, Exp)> =
+            o.operators.iter().map(|(a, b, e)| (self.addrs.id(a), self.addrs.id(b), e.clone())).collect();
+        ops.sort();
+        let ops: Vec<String> = ops.iter().map(|(a, b, e)| format!("(({}, {}), {})", a, b, coq_exp(e))).collect();
+        format!(
+            "(mkObs {} {} {} (mkOwn {} {} {}) {} {} {})",
+            info,
+            o.num_tokens,
+            coq_list(&toks),
+            self.coq_opt_addr(&o.minter),
+            self.coq_opt_addr(&o.pending),
+            coq_opt_exp(&o.pending_expiry),
+            coq_list(&ops),
+            coq_bool(o.md_frozen),
+            coq_bool(o.md_enabled)
+        )
+    }
+    fn coq_upd(&mut self, u: &UpdSpec) -> String {
+        format!(
+            "(mkUpd {} {} {} {} {} {})",
+            self.coq_opt_txt(&u.description),
+            self.coq_opt_txt(&u.image),
+            self.coq_opt_txt(&u.external_link),
+            coq_opt_bool(u.explicit_content),
+            self.coq_roy(&u.royalty),
+            self.coq_opt_addr(&u.creator)
+        )
+    }
+    pub fn coq_op(&mut self, op: &Op) -> String {
+        match op {
+            Op::Mint { id, owner, uri } => format!("(OMint {} {} {})", id, self.addrs.id(owner), self.coq_uri(uri)),
+            Op::Transfer { to, id } => format!("(OTransfer {} {})", self.addrs.id(to), id),
+            Op::Send { to, id } => format!("(OSend {} {} {})", self.addrs.id(to), id, coq_bool(to == PUPPET)),
+            Op::Approve { spender, id, exp } => format!("(OApprove {} {} {})", self.addrs.id(spender), id, coq_opt_exp(exp)),
+            Op::Revoke { spender, id } => format!("(ORevoke {} {})", self.addrs.id(spender), id),
+            Op::ApproveAll { operator, exp } => format!("(OApproveAll {} {})", self.addrs.id(operator), coq_opt_exp(exp)),
+            Op::RevokeAll { operator } => format!("(ORevokeAll {})", self.addrs.id(operator)),
+            Op::Burn { id } => format!("(OBurn {})", id),
+            Op::UpdateInfo(u) => format!("(OUpdateInfo {})", self.coq_upd(u)),
+            Op::StartTrading(t) => format!("(OStartTrading {})", coq_opt_n(*t)),
+            Op::FreezeInfo => "OFreezeInfo".into(),
+            Op::OwnTransfer { new_owner, exp } => format!("(OOwnTransfer {} {})", self.addrs.id(new_owner), coq_opt_exp(exp)),
+            Op::OwnAccept => "OOwnAccept".into(),
+            Op::OwnRenounce => "OOwnRenounce".into(),
+            Op::UpdateTokenMd { id, uri } => format!("(OUpdateTokenMd {} {})", id, self.coq_uri(uri)),
+            Op::FreezeTokenMd => "OFreezeTokenMd".into(),
+            Op::EnableUpdatable => "OEnableUpdatable".into(),
+        }
+    }
+}
+
+pub fn coq_opt_bool(b: Option<bool>) -> String {
+    match b {
+        Some(x) => format!("(Some {})", coq_bool(x)),
+        None => "None".into(),
+    }
+}
+pub fn coq_exp(e: &Exp) -> String {
+    match e {
+        Exp::Never => "ExNever".into(),
+        Exp::At(t) => format!("(ExAt {})", t),
+    }
+}
+pub fn coq_opt_exp(e: &Option<Exp>) -> String {
+    match e {
+        Some(x) => format!("(Some {})", coq_exp(x)),
+        None => "None".into(),
+    }
+}
+fn coq_funds(fs: &[(String, u128)], denoms: &mut Ids) -> String {
+    coq_list(&fs.iter().map(|(d, a)| format!("mkCoin {} {}", denoms.id(d), a)).collect::<Vec<_>>())
+}
+
+/// Incremental runner: boots the world, then executes steps one at a time (the generators
+/// look at the latest observation to choose the next call).
+pub struct Runner {
+    pub setup: Setup,
+    pub world: Option<World>,
+    pub init_err: Option<String>,
+    pub init_obs: Option<Obs>,
+    pub last: Option<Obs>,
+    pub recs: Vec<StepRec>,
+    coq_steps: Vec<String>,
+    coq_head: String,
+    denoms: Ids,
+}
+impl Runner {
+    pub fn new(setup: &Setup) -> Runner {
+        let mut denoms = denom_ids();
+        denoms.id("uother");
+        let (world, init_err, mut addrs, mut texts) = match World::boot(setup) {
+            Ok(w) => {
+                let (a, t) = (w.addrs.clone(), w.texts.clone());
+                (Some(w), None, a, t)
+            }
+            Err((e, a, t)) => (None, Some(e), a, t),
+        };
+        let mut r = Runner {
+            setup: setup.clone(),
+            world,
+            init_err,
+            init_obs: None,
+            last: None,
+            recs: vec![],
+            coq_steps: vec![],
+            coq_head: String::new(),
+            denoms,
+        };
+        let f0 = if setup.funds0 > 0 { vec![(NATIVE.to_string(), setup.funds0)] } else { vec![] };
+        let info0 = InfoObs {
+            creator: setup.info.creator.clone(),
+            description: setup.info.description.clone(),
+            image: setup.info.image.clone(),
+            external_link: setup.info.external_link.clone(),
+            explicit_content: setup.info.explicit_content,
+            start_trading_time: setup.info.start_trading_time,
+            royalty: setup.info.royalty.clone(),
+        };
+        let (self_id, minter_id, info_s, init_s) = match r.world.as_mut() {
+            Some(w) => {
+                let o = w.observe();
+                let s = (w.addrs.id(w.coll.as_str()), w.addrs.id(&setup.minter), w.coq_info(&info0), format!("(Some {})", w.coq_obs(&o)));
+                r.init_obs = Some(o.clone());
+                r.last = Some(o);
+                s
+            }
+            None => {
+                // rejected instantiation: print the inputs with a throw-away world-less printer
+                let mut w = PrinterOnly { addrs: &mut addrs, texts: &mut texts };
+                (0, w.addrs.id(&setup.minter), w.coq_info(&info0), "None".to_string())
+            }
+        };
+        r.coq_head = format!(
+            "{} {} {} {} {} {} {} {} {}",
+            setup.variant.coq(),
+            coq_bool(setup.variant == Variant::UpdatableMigrated),
+            self_id,
+            setup.time0,
+            coq_bool(setup.by_contract),
+            coq_funds(&f0, &mut r.denoms),
+            minter_id,
+            info_s,
+            init_s
+        );
+        r
+    }
+    pub fn alive(&self) -> bool {
+        self.world.is_some()
+    }
+    pub fn obs(&self) -> &Obs {
+        self.last.as_ref().expect("collection exists")
+    }
+    pub fn step(&mut self, st: &Step) -> &StepRec {
+        let w = self.world.as_mut().expect("collection exists");
+        let before = self.last.clone().unwrap();
+        let (ok, err, burned, pooled) = w.exec(st);
+        let after = w.observe();
+        let obs_s = if after == before { "None".to_string() } else { format!("(Some {})", w.coq_obs(&after)) };
+        let out_s = if ok { format!("(Done {} {})", burned, pooled) } else { "Failed".to_string() };
+        let s = format!(
+            "mkStep (mkEnv {} {} {}) {} {} {}",
+            st.at,
+            w.addrs.id(&st.sender),
+            coq_funds(&st.funds, &mut self.denoms),
+            w.coq_op(&st.op),
+            out_s,
+            obs_s
+        );
+        self.coq_steps.push(s);
+        self.last = Some(after.clone());
+        self.recs.push(StepRec { step: st.clone(), ok, err, burned, pooled, before, after });
+        self.recs.last().unwrap()
+    }
+    pub fn hist(&self) -> Hist {
+        Hist { setup: self.setup.clone(), steps: self.recs.iter().map(|r| r.step.clone()).collect() }
+    }
+    /// the Coq `history` term (without a constructor in front)
+    pub fn coq_history(&self) -> String {
+        format!("(mkHist {} {})", self.coq_head, coq_list(&self.coq_steps))
+    }
+}
+
+struct PrinterOnly<'a> {
+    addrs: &'a mut Ids,
+    texts: &'a mut Ids,
+}
+impl PrinterOnly<'_> {
+    fn coq_txt(&mut self, s: &str) -> String {
+        format!("(mkTxt {} {} {})", self.texts.id(s), s.len(), coq_bool(VALID_URLS.contains(&s)))
+    }
+    fn coq_info(&mut self, i: &InfoObs) -> String {
+        let c = self.addrs.id(&i.creator);
+        let link = match &i.external_link {
+            Some(x) => format!("(Some {})", self.coq_txt(x)),
+            None => "None".into(),
+        };
+        let roy = match &i.royalty {
+            Some(r) => format!("(Some (mkRoy {} {}))", self.addrs.id(&r.addr), r.share),
+            None => "None".into(),
+        };
+        format!(
+            "(mkInfo {} {} {} {} {} {} {})",
+            c,
+            self.coq_txt(&i.description),
+            self.coq_txt(&i.image),
+            link,
+            coq_opt_bool(i.explicit_content),
+            coq_opt_n(i.start_trading_time),
+            roy
+        )
+    }
+}
+
+/// Re-run a recorded history from scratch.
+pub fn run_hist(h: &Hist) -> Runner {
+    let mut r = Runner::new(&h.setup);
+    if r.alive() {
+        for st in &h.steps {
+            r.step(st);
+        }
+    }
+    r
+}
+
+/// Greedy one-at-a-time shrinking: drop every step whose removal keeps `still_fails` true.
+pub fn shrink(h: &Hist, still_fails: &dyn Fn(&Runner) -> bool) -> Hist {
+    let mut cur = h.clone();
+    let mut i = cur.steps.len();
+    while i > 0 {
+        i -= 1;
+        let mut cand = cur.clone();
+        cand.steps.remove(i);
+        let r = run_hist(&cand);
+        if still_fails(&r) {
+            cur = cand;
+        }
+    }
+    cur
+}
+
+pub fn default_info() -> InfoSpec {
+    InfoSpec {
+        creator: "creator".into(),
+        description: "a collection".into(),
+        image: VALID_URLS[0].into(),
+        external_link: Some(VALID_URLS[2].into()),
+        explicit_content: Some(false),
+        start_trading_time: None,
+        royalty: Some(Roy { addr: "royalty".into(), share: 5 * PCT }),
+    }
+}
+pub fn default_setup(v: Variant) -> Setup {
+    Setup {
+        variant: v,
+        time0: chain::GENESIS_NS + 1_000_000_000,
+        by_contract: true,
+        funds0: 0,
+        minter: PUPPET.into(),
+        info: default_info(),
+    }
+}
+pub fn replay_body(prop: &str, h: &Hist, what: &str, key: &str) -> String {
+    format!(
+        "{{\n \"property\": \"{}\",\n \"key\": {},\n \"history\": {},\n \"violation\": {}\n}}\n",
+        prop,
+        serde_json::to_string(key).unwrap(),
+        serde_json::to_string(h).unwrap(),
+        serde_json::to_string(what).unwrap()
+    )
+}
